@@ -143,7 +143,7 @@ fn main() {
                 let cfg = GenCfg { extras: EXTRAS, guarded: true, stack_ops: gi % 3 == 0, tags: false, max_rules: 5, max_depth: 4, builtin_names: true, tag_shapes: TAG_SHAPES };
                 // the first grammars of every run are centred on the idioms; half of them on the one that matters most for the profile
                 let fav = match profile.as_str() { "C08" => 4, "C15" => 1, "C12" => 5, _ => gi };
-                let rules = if gi < 48 { gen_grammar_idiom(&mut rng, &cfg, if gi % 2 == 0 { fav } else { gi }) } else { gen_grammar(&mut rng, &cfg) };
+                let rules = if gi < 60 { gen_grammar_idiom(&mut rng, &cfg, if gi % 2 == 0 { fav } else { gi }) } else { gen_grammar(&mut rng, &cfg) };
                 let orules = match catch(|| pest_meta::optimizer::optimize(rules.clone())) { Ok(o) => o, Err(_) => continue };
                 let srules = show_orules(&orules);
                 let alpha = alphabet(&rules);
